@@ -1263,6 +1263,7 @@ class Unit:
         for key in selected:
             if key not in self.fns: raise TErr(f'function {key[0]}::{key[1]} not found in {files}')
         self.struct_types = struct_types
+        self.defs = {}
         # effect analysis: fixpoint over the selected functions
         self.bodies = {}
         for key in selected:
@@ -1313,6 +1314,8 @@ class Unit:
     def gen_structs(self, names):
         out = ''
         for n in names:
+            start = len(out)
+            self.defs[f'{self.cfg.ns}.struct.{self.struct_short(n)}'] = None
             fields = self.structs.get(n)
             if fields is None: raise TErr(f'struct {n} not found')
             out += f'/-- `struct {n}` -/\nstructure {self.struct_short(n)} (V : Type) where\n'
@@ -1323,12 +1326,15 @@ class Unit:
                 if list(fields) != ['inner', 'pos']: raise TErr(f'struct {n}: a slice iterator is expected to have the fields inner, pos')
                 out += (f'/-- The bytes a `{n}` will still yield (see `{self.struct_short(n)}.next` and the theorem that it walks `inner.drop pos`). -/\n'
                         f'def {self.struct_short(n)}.toIter {{V : Type}} (it : {self.struct_short(n)} V) : List Nat := it.inner.drop it.pos\n\n')
+            self.defs[f'{self.cfg.ns}.struct.{self.struct_short(n)}'] = out[start:]
         return out
 
     def gen(self, order):
         out = ''
         for key in order:
-            out += FnT(self, self.fns[key]).run() + '\n'
+            text = FnT(self, self.fns[key]).run()
+            self.defs[f'{self.cfg.ns}.{self.lean_fn_name(self.fns[key])}'] = text
+            out += text + '\n'
         return out
 
 HEADER = '''/- GENERATED by /verif/tools/rs2lean.py from /repo's current source ({files}). Do not edit.
@@ -1414,6 +1420,9 @@ def main():
     textc += uc.gen(c_sel)
     textc += 'end Daac.Gen.C\n'
     results['SearchC.lean'] = textc
+    import hashlib, json
+    manifest = {k: hashlib.sha1(v.encode()).hexdigest()[:16] for u in (ub, uc) for k, v in u.defs.items()}
+    results['search_defs.json'] = json.dumps(manifest, indent=1, sort_keys=True) + '\n'
     for name, text in results.items():
         path = os.path.join(outdir, name)
         old = open(path).read() if os.path.exists(path) else None
